@@ -90,6 +90,8 @@ def make_graph(spec: dict[str, Any], calls: dict[str, int], failed: dict[str, in
     factories: dict[str, Any] = {}
     descriptors: dict[str, Any] = {}
     for name, cfg in spec.items():
+        if cfg.get("alias_of"):
+            continue  # a second descriptor for another entry's factory (declared below)
         deps = cfg.get("deps", [])
 
         def mk(name: str = name, cfg: dict[str, Any] = cfg, deps: list[str] = deps) -> Any:
@@ -122,7 +124,12 @@ def make_graph(spec: dict[str, Any], calls: dict[str, int], failed: dict[str, in
         factories[name] = mk()
         descriptors[name] = Resource(factories[name], cache=cfg.get("cache", True))
     for name, cfg in spec.items():
-        factories[name].__annotations__ = {d: Annotated[Obj, descriptors[d]] for d in cfg.get("deps", [])}
+        if cfg.get("alias_of"):
+            # the SAME factory declared once more with the other cache flag (Resource(f) and Resource(f, cache=False))
+            descriptors[name] = Resource(factories[cfg["alias_of"]], cache=cfg.get("cache", True))
+    for name, cfg in spec.items():
+        if not cfg.get("alias_of"):
+            factories[name].__annotations__ = {d: Annotated[Obj, descriptors[d]] for d in cfg.get("deps", [])}
     return descriptors
 
 
@@ -241,7 +248,31 @@ def execute(ex: Execution, graph: dict[str, Any], inject: dict[str, list[str]], 
                     for o in res.values():
                         walk(o, acc)
                     per_inv.append(acc)
+                aliased = {cfg["alias_of"] for cfg in graph.values() if cfg.get("alias_of")}
+                if aliased:
+                    # one factory declared with both cache flags: judged by the parameter each object was injected as
+                    by_param: dict[str, list[Any]] = {}
+                    for _name, _uid, res in got:
+                        for pname_, o in res.items():
+                            by_param.setdefault(pname_, []).append(o)
+                    for pname_, objs in by_param.items():
+                        cfg_ = graph[pname_]
+                        base = cfg_.get("alias_of") or pname_
+                        if base not in aliased:
+                            continue
+                        if cfg_.get("cache", True):
+                            if len({id(o) for o in objs}) != 1:
+                                v.append(("cached_resource_not_shared", {**w, "async": graph[base].get("async", True), "factory_also_declared_non_cached": True},
+                                          f"cached declaration {pname_} of factory make_{base}: injected objects {objs}"))
+                        else:
+                            cached_objs = {id(o) for q, os_ in by_param.items() if graph[q].get("cache", True) and (graph[q].get("alias_of") or q) == base for o in os_}
+                            if len({id(o) for o in objs}) != len(objs) or any(id(o) in cached_objs for o in objs):
+                                v.append(("non_cached_resource_shared_across_invocations",
+                                          {**w, "async": graph[base].get("async", True), "factory_also_declared_cached": True},
+                                          f"non-cached declaration {pname_} of factory make_{base}: injected {objs}, cached declaration got {sorted(cached_objs)}"))
                 for rname, cfg in graph.items():
+                    if cfg.get("alias_of") or rname in aliased:
+                        continue
                     seen = [o for acc in per_inv for o in acc.get(rname, [])]
                     users = [acc for acc in per_inv if rname in acc]
                     if not seen:
@@ -327,6 +358,13 @@ THREE: dict[str, tuple[dict[str, Any], dict[str, list[str]]]] = {
 }
 
 
+# one factory declared twice, cached and non-cached (both declarations share the manager's key for that factory)
+THREE["both_flags_cached_first"] = ({"r": {"async": False, "cache": True}, "r_nc": {"alias_of": "r", "cache": False}},
+                                    {"s1": ["r"], "s2": ["r_nc"], "s3": ["r"]})
+THREE["both_flags_noncached_first"] = ({"r": {"async": True, "cache": True}, "r_nc": {"alias_of": "r", "cache": False}},
+                                       {"s1": ["r_nc"], "s2": ["r"], "s3": ["r_nc", "r"]})
+
+
 THREE_FAIL: dict[str, tuple[dict[str, Any], dict[str, list[str]]]] = {
     # a resolution that raises (a factory with a transient fault; the step is retried) followed by later resolutions on the
     # same ResourceManager: the non-cached resource must still be fresh for every invocation
@@ -361,7 +399,7 @@ def programs(tier: str) -> list[Program]:
 
 
 RULE = ("dependency graphs over <=3 resources (sync/async factories with an inner suspension point, cached / "
-        "non-cached, shared sub-dependency, 1-, 2- and 3-cycles) injected into two steps that overlap and into two "
+        "non-cached, one factory declared with both flags, shared sub-dependency, 1-, 2- and 3-cycles) injected into two steps that overlap and into two "
         "invocations of a num_workers=2 step, and resolutions that follow one that raised (factory with a transient fault, step "
         "retried) x all interleavings of factory and step suspension points; factory call "
         "counts, identities of injected objects and cycle errors are compared with the documented caching rules; "
